@@ -213,9 +213,11 @@ static int32_t wr_index(struct jls_core_fsr_s * self, uint8_t level) {
 static int32_t wr_summary(struct jls_core_fsr_s * self, uint8_t level) {
     struct jls_core_fsr_level_s * dst = self->level[level];
     if (!dst->summary->header.entry_count) {
-        // Level 1 also indexes data chunks too short to yield a summary entry:
-        // without the index they cannot be reached and do not count towards the length.
-        if ((level != 1) || !dst->index->header.entry_count) {
+        // A pending index entry still has to reach the file: level 1 indexes data
+        // chunks too short to yield a summary entry, and the levels above must lead
+        // to them.  Levels that were never written stay absent.
+        struct jls_core_track_s * track = &self->parent->tracks[JLS_TRACK_TYPE_FSR];
+        if (!dst->index->header.entry_count || ((level != 1) && !track->head_offsets[level])) {
             return 0;
         }
     }
